@@ -211,6 +211,12 @@ func (e *Engine) global(g *ssa.Global) *Cell {
 	c, ok := e.globals[g]
 	if !ok {
 		c = e.newCell(e.zero(g.Type().Underlying().(*types.Pointer).Elem()))
+		if g.Pkg != nil && g.Pkg.Pkg.Path() == "os" {
+			switch g.Name() {
+			case "Stdin", "Stdout", "Stderr":
+				c.V = e.stdFile(g.Name())
+			}
+		}
 		e.globals[g] = c
 		// make sure the defining package is initialised (lazily, once per path)
 		if g.Pkg != nil {
@@ -250,8 +256,16 @@ func (e *Engine) rtPanic(in ssa.Instruction, msg string) {
 
 // ---- calls ----
 
+// callReal interprets fn even if a stub is registered for it (used by recording stubs).
+func (e *Engine) callReal(fn *ssa.Function, args []Value) Value {
+	e.noIntercept = fn
+	return e.call(fn, args, nil)
+}
+
 func (e *Engine) call(fn *ssa.Function, args []Value, env []Value) (result Value) {
-	if r, ok := e.intercept(fn, args); ok {
+	if e.noIntercept == fn {
+		e.noIntercept = nil
+	} else if r, ok := e.intercept(fn, args); ok {
 		return r
 	}
 	if fn.Blocks == nil {
@@ -843,9 +857,75 @@ func (e *Engine) slice(in *ssa.Slice, fr *frame, d *dinstr) Value {
 	panic(pathEnd{"unsupported", fmt.Sprintf("Slice of %T", x)})
 }
 
-// ropeSlice supports s[lo:hi] when both cuts fall in the concrete prefix / suffix.
+// ropeSlice implements s[lo:hi] (byte offsets) on a string with symbolic runes. If every
+// symbolic rune is ASCII (one byte) the result is exact. Otherwise — byte offsets into
+// multi-byte symbolic runes — the engine continues with ONE representative assignment of the
+// runes taken from a solver model (an under-approximation): a violation found on that side is
+// real and is replayed natively, but a pass there proves nothing, so the path is reported as
+// unsupported unless it ends in a violation.
 func (e *Engine) ropeSlice(in *ssa.Slice, r *Rope, fr *frame, d *dinstr) Value {
-	panic(pathEnd{"unsupported", "slicing a symbolic string at " + e.pos(in)})
+	geti := func(k int, def int) int {
+		if d.ops[k].kind == okNil {
+			return def
+		}
+		return int(e.concreteInt(e.get(fr, &d.ops[k]), "slice bound"))
+	}
+	var syms []*Term
+	for _, sg := range r.Segs {
+		if sg.Q != nil {
+			panic(pathEnd{"unsupported", "slicing a string containing Quote(symbolic) at " + e.pos(in)})
+		}
+		if sg.R != nil {
+			syms = append(syms, sg.R)
+		}
+	}
+	st := e.st
+	ascii := st.True
+	for _, t := range syms {
+		ascii = st.And(ascii, st.Lt(t, st.BV(0x80, 32), true))
+	}
+	if e.decideV(ascii, "ascii-slice") {
+		// one byte per rune: byte offsets are item offsets
+		its := items(r)
+		lo := geti(1, 0)
+		hi := geti(2, len(its))
+		if lo < 0 || lo > hi || hi > len(its) {
+			e.rtPanic(in, fmt.Sprintf("slice bounds out of range [%d:%d] with length %d", lo, hi, len(its)))
+		}
+		vals := make([]Value, 0, hi-lo)
+		for _, it := range its[lo:hi] {
+			if it.Raw != "" {
+				panic(pathEnd{"unsupported", "slicing a string with invalid UTF-8 at " + e.pos(in)})
+			}
+			vals = append(vals, it.R)
+		}
+		return e.stringOfRunes(vals)
+	}
+	// representative for the non-ASCII side
+	e.qs.Concretize++
+	v, m := e.sol.Check(nil, e.jobVars)
+	e.count(v)
+	if v != Sat {
+		panic(pathEnd{"infeasible", "no model for byte slicing"})
+	}
+	e.partial = "byte-level slicing of non-ASCII symbolic runes at " + e.pos(in) + ": one representative explored"
+	var b strings.Builder
+	for _, sg := range r.Segs {
+		if sg.R != nil {
+			val := Eval(sg.R, m, map[uint32]uint64{})
+			e.addPC(st.Eq(sg.R, st.BV(val, 32)))
+			b.WriteRune(rune(int32(val)))
+		} else {
+			b.WriteString(sg.S)
+		}
+	}
+	str := b.String()
+	lo := geti(1, 0)
+	hi := geti(2, len(str))
+	if lo < 0 || lo > hi || hi > len(str) {
+		e.rtPanic(in, fmt.Sprintf("slice bounds out of range [%d:%d] with length %d", lo, hi, len(str)))
+	}
+	return str[lo:hi]
 }
 
 // ---- type assertions, ranges ----
